@@ -39,7 +39,7 @@ JudgeCrc(e) ==
       modelOK == CrcLE(alg, Check9, s) = e.alg.check
       plain == Enc(e.target, e.value)
       encOK == e.frame = plain \o CrcLE(alg, plain, s)
-      T == TLCEval([i \in 1..Len(e.cases) |-> CrcOutcome(alg, s, e.target, e.cases[i][2], e.cases[i][4] = 1)])
+      T == TLCEval([i \in 1..Len(e.cases) |-> CrcOutcome(alg, s, e.target, e.cases[i][2], e.cases[i][4] >= 1)])
       \* the statement requires acceptance with the right value/remainder, or rejection (it names no error kind)
       Agree(obs, exp) == IF exp[1] = 1 THEN obs = exp ELSE obs[1] = 0 /\ obs[2] # "panic"
       badIdx == {i \in 1..Len(e.cases) : ~Agree(e.cases[i][3], T[i])}
